@@ -143,6 +143,13 @@ def make_test(i, outcome, kind, stop_hook=None, tid=None):
         def test(self):
             if stop_hook is not None:
                 stop_hook()
+            if i % 2:
+                # a text attachment read in chunks that split a multi-byte character (a log read 4096 bytes at a time)
+                from testtools.content import Content
+                from testtools.content_type import UTF8_TEXT
+                whole = "caf\xe9 \u2603 log of test %d" % i
+                raw = whole.encode("utf8")
+                self.addDetail("log", Content(UTF8_TEXT, lambda: [raw[:4], raw[4:7], raw[7:]]))
             if outcome == "failure":
                 self.fail("f%d" % i)
             if outcome == "error":
@@ -252,9 +259,18 @@ def x_hist(ctx, case):
                           lambda: {"shouldStop": top.shouldStop, "after test": k, **detail()})
             return want_stop
 
+        def run_one(t, result, k):
+            # an exception leaving run() for one of these tests (none of them raises an interrupt) is a result that
+            # failed to take the report: that is the violation, not a harness problem
+            try:
+                t.run(result)
+            except Exception as e:  # noqa
+                ctx.check(False, "wasSuccessful==no-problem-since-startTestRun",
+                          lambda: {"reporting the test raised": repr(e), "after test": k, **detail()})
+
         if mode == "direct":
             for k, (outcome, t) in enumerate(tests):
-                t.run(top)
+                run_one(t, top, k)
                 after(outcome, k)
         else:
             ran = []
@@ -265,7 +281,7 @@ def x_hist(ctx, case):
 
                 def __call__(self, result):
                     ran.append(self.k)
-                    self.t.run(result)
+                    run_one(self.t, result, self.k)
                     after(self.outcome, self.k)
 
                 def countTestCases(self):
@@ -322,7 +338,11 @@ def x_stream_replay(ctx, case):
     top.startTestRun()
     outcomes, ids = case["tests"], case["ids"]
     for i, (o, tid) in enumerate(zip(outcomes, ids)):
-        make_test(i, o, "testcase", None, "t%d" % i).run(top) if tid is None else _IdTest(o, tid).run(top)
+        try:
+            make_test(i, o, "testcase", None, "t%d" % i).run(top) if tid is None else _IdTest(o, tid).run(top)
+        except Exception as e:  # noqa - reporting an ordinary test raised
+            ctx.check(False, "text.summary-agrees", {"case": case, "reporting test %d raised" % i: repr(e)})
+            return True
     n = len(outcomes)
     problems = sum(1 for o in outcomes if o in BAD)
     if case.get("hung"):
@@ -480,6 +500,10 @@ def x_run(ctx, case):
             prog = TestProgram(module=mod, argv=argv, stdout=out, testRunner=runner)
     except SystemExit as e:
         code = e.code
+    except Exception as e:  # noqa - the program dying of an exception while reporting ordinary tests: that is the violation
+        ctx.check(False, "run.exit-status==not-wasSuccessful",
+                  {"testtools.run raised instead of exiting": repr(e), "outcomes": outcomes, "tail": out.getvalue()[-200:]})
+        return True
     finally:
         sys.modules.pop(modname, None)
     bad = [o for o in outcomes if o in BAD]
